@@ -20,18 +20,24 @@
 (*   persistence/sqlite/transaction.py:store_stage(expected_phase)         *)
 (***************************************************************************)
 EXTENDS Naturals, Sequences, FiniteSets, TLC, RaceCfg
-\* RaceCfg: Workers, Branch (worker -> upstream branch), JoinType, Threshold, Scenario, Up (set of upstream refs)
+\* RaceCfg: Workers, Branch (worker -> the stage its message is about), JoinType, Threshold, Scenario, Up (upstream
+\* refs of d), SibOrder (sibling stages in store order), InitSt (projection of the real database at race start)
 
-VARIABLES st,      \* stage rows: ref -> [status, ver, fired, cb, tver (version of its single task), tstatus]
-          q,       \* message ids in the queue (all locked by their holder)
+VARIABLES st,      \* stage rows: ref -> [status, ver, fired, cb, tver (version of its single task)]
+          q,       \* message ids in the queue: <<type, stage, n>>; n < 100 = the racing messages, n >= 100 = pushed during the race
           done,    \* processed-message ids
-          wk,      \* worker -> [pc, snap]
-          gh       \* ghost: claims / plans / StartTask pushes of d, StartStage(d) pushes per branch
-vars == <<st, q, done, wk, gh>>
+          claims,  \* claim table: key -> owning stage (mutex / deferred choice)
+          wk,      \* worker -> [pc, snap, sib]
+          gh       \* ghost: claims / plans / StartTask pushes, StartStage(d) pushes, stages ever claimed
+vars == <<st, q, done, claims, wk, gh>>
 
 Continuable == {"SUCCEEDED", "FAILED_CONTINUE", "SKIPPED", "REDIRECT"}
 Tracked     == JoinType \in {"DISCRIMINATOR", "N_OF_M"}
-MsgOf(w)    == IF Scenario = "A" THEN <<"StartStage", "d", w>> ELSE <<"CompleteStage", Branch[w], 1>>
+Complete    == {"CANCELED", "SUCCEEDED", "STOPPED", "SKIPPED", "TERMINAL", "FAILED_CONTINUE"}
+MsgOf(w)    == CASE Scenario = "A" -> <<"StartStage", "d", w>>
+                 [] Scenario = "B" -> <<"CompleteStage", Branch[w], 1>>
+                 [] OTHER -> <<"StartStage", Branch[w], 1>>          \* "M" mutex siblings, "X" deferred-choice siblings
+NewMsg(typ, s) == <<typ, s, 100 + Cardinality({m \in q : m[3] >= 100})>>
 
 \* InitSt (RaceCfg) is the projection of the REAL database at the moment the race starts:
 \* ref -> [status, ver, fired, cb, tver]
@@ -39,8 +45,9 @@ Init ==
   /\ st = InitSt
   /\ q = {MsgOf(w) : w \in Workers}
   /\ done = {}
-  /\ wk = [w \in Workers |-> [pc |-> "read", snap |-> <<>>]]
-  /\ gh = [claims |-> 0, plans |-> 0, startTask |-> 0, startStageD |-> 0]
+  /\ claims = <<>>
+  /\ wk = [w \in Workers |-> [pc |-> "read", snap |-> <<>>, sib |-> <<>>]]
+  /\ gh = [nclaims |-> 0, plans |-> 0, startTask |-> 0, startStageD |-> 0, claimed |-> {}]
 
 (* dag/readiness.py on a snapshot of d and its upstream *)
 Ready(sn) ==
@@ -51,7 +58,9 @@ Ready(sn) ==
     [] OTHER -> IF C = Up THEN "READY" ELSE "WAIT"
 
 Snap(s) == [status |-> st[s].status, ver |-> st[s].ver, fired |-> st[s].fired, cb |-> st[s].cb,
-            up |-> [u \in Up |-> st[u].status], dver |-> st["d"].ver, dstatus |-> st["d"].status, dcb |-> st["d"].cb]
+            up |-> [u \in Up |-> st[u].status],
+            dcb |-> IF "d" \in DOMAIN st THEN st["d"].cb ELSE {},
+            sibs |-> [o \in DOMAIN st |-> st[o].status]]
 Go(w, pc) == wk' = [wk EXCEPT ![w].pc = pc]
 
 (* ---- StartStage(d) ------------------------------------------------------------------------ *)
@@ -62,33 +71,35 @@ SSRead(w) ==
                                       ELSE IF r = "READY" /\ sn.status = "NOT_STARTED" THEN "claim"
                                       ELSE IF r = "RETRY" THEN "requeue"
                                       ELSE "postmark",
-                              snap |-> sn]]
-  /\ UNCHANGED <<st, q, done, gh>>
+                              snap |-> sn, sib |-> <<>>]]
+  /\ UNCHANGED <<st, q, done, claims, gh>>
 
 SSClaim(w) ==   \* UPDATE .. WHERE version = :v AND status = 'NOT_STARTED'; loser swallows ConcurrencyError
   /\ wk[w].pc = "claim"
   /\ IF st["d"].ver = wk[w].snap.ver /\ st["d"].status = "NOT_STARTED"
      THEN /\ st' = [st EXCEPT !["d"].status = "RUNNING", !["d"].ver = @ + 1, !["d"].tver = @ + 1]
-          /\ gh' = [gh EXCEPT !.claims = @ + 1]
+          /\ gh' = [gh EXCEPT !.nclaims = @ + 1, !.claimed = @ \cup {"d"}]
           /\ Go(w, "plan")
      ELSE /\ UNCHANGED <<st, gh>> /\ Go(w, "postmark")
-  /\ UNCHANGED <<q, done>>
+  /\ UNCHANGED <<q, done, claims>>
 
+Target(w) == IF Scenario = "A" THEN "d" ELSE Branch[w]
 SSPlan(w) ==    \* plan commit: CAS on the version the claim produced; mark + StartTask in the same commit
   /\ wk[w].pc = "plan"
-  /\ IF st["d"].ver = wk[w].snap.ver + 1
-     THEN /\ st' = [st EXCEPT !["d"].ver = @ + 1, !["d"].tver = @ + 1, !["d"].fired = @ \/ Tracked]
+  /\ LET s == Target(w) IN
+     IF st[s].ver = wk[w].snap.ver + 1
+     THEN /\ st' = [st EXCEPT ![s].ver = @ + 1, ![s].tver = @ + 1, ![s].fired = @ \/ (s = "d" /\ Tracked)]
           /\ done' = done \cup {MsgOf(w)}
-          /\ q' = q \cup {<<"StartTask", "d", gh.startTask + 1>>}
+          /\ q' = q \cup {NewMsg("StartTask", s)}
           /\ gh' = [gh EXCEPT !.plans = @ + 1, !.startTask = @ + 1]
      ELSE UNCHANGED <<st, done, q, gh>>
-  /\ Go(w, "postmark")
+  /\ Go(w, "postmark") /\ UNCHANGED claims
 
 SSRequeue(w) ==  \* fired join: StartStage re-queued with retry_count + 1 (own commit)
   /\ wk[w].pc = "requeue"
-  /\ q' = q \cup {<<"StartStage", "d", 10 + w>>}
+  /\ q' = q \cup {NewMsg("StartStage", Target(w))}
   /\ Go(w, "postmark")
-  /\ UNCHANGED <<st, done, gh>>
+  /\ UNCHANGED <<st, done, claims, gh>>
 
 (* ---- CompleteStage(branch) ------------------------------------------------------------------ *)
 CSRead(w) ==
@@ -96,8 +107,8 @@ CSRead(w) ==
   /\ LET b == Branch[w] sn == Snap(b) IN
      wk' = [wk EXCEPT ![w] = [pc |-> IF MsgOf(w) \in done THEN "ack"
                                       ELSE IF Tracked /\ b \notin sn.dcb THEN "jointrack" ELSE "final",
-                              snap |-> sn]]
-  /\ UNCHANGED <<st, q, done, gh>>
+                              snap |-> sn, sib |-> <<>>]]
+  /\ UNCHANGED <<st, q, done, claims, gh>>
 
 CSJoinTrack(w) ==
   \* store_stage(fresh d, expected_phase): a failed CAS leaves the implicit transaction open, the
@@ -105,7 +116,7 @@ CSJoinTrack(w) ==
   /\ wk[w].pc = "jointrack"
   /\ st' = [st EXCEPT !["d"].cb = @ \cup {Branch[w]}, !["d"].ver = @ + 1, !["d"].tver = @ + 1]
   /\ Go(w, "final")
-  /\ UNCHANGED <<q, done, gh>>
+  /\ UNCHANGED <<q, done, claims, gh>>
 
 CSFinal(w) ==   \* stage status + mark + downstream StartStage(d) in one commit
   /\ wk[w].pc = "final"
@@ -113,16 +124,63 @@ CSFinal(w) ==   \* stage status + mark + downstream StartStage(d) in one commit
      IF st[b].ver = wk[w].snap.ver
      THEN /\ st' = [st EXCEPT ![b].status = "SUCCEEDED", ![b].ver = @ + 1, ![b].tver = @ + 1]
           /\ done' = done \cup {MsgOf(w)}
-          /\ q' = q \cup {<<"StartStage", "d", gh.startStageD + 1>>}
+          /\ q' = q \cup {NewMsg("StartStage", "d")}
           /\ gh' = [gh EXCEPT !.startStageD = @ + 1]
      ELSE UNCHANGED <<st, done, q, gh>>
+  /\ Go(w, "postmark") /\ UNCHANGED claims
+
+(* ---- StartStage of sibling stages sharing a mutex key ("M") or a deferred-choice group ("X") ------ *)
+ClaimKey == IF Scenario = "M" THEN "mutex:m" ELSE "choice:g"
+SibRead(w) ==   \* fast path: _is_mutex_blocked / _is_deferred_choice_claimed read every stage of the workflow
+  /\ Scenario \in {"M", "X"} /\ wk[w].pc = "read"
+  /\ LET s == Branch[w] sn == Snap(s)
+         others == DOMAIN st \ {s}
+     IN wk' = [wk EXCEPT ![w] = [pc |-> IF MsgOf(w) \in done THEN "ack"
+                                        ELSE IF sn.status # "NOT_STARTED" THEN "postmark"
+                                        ELSE IF Scenario = "M" /\ \E o \in others : sn.sibs[o] = "RUNNING" THEN "requeue"
+                                        ELSE IF Scenario = "X" /\ \E o \in others : sn.sibs[o] # "NOT_STARTED" THEN "cancelself"
+                                        ELSE "sibclaim",
+                                snap |-> sn, sib |-> <<>>]]
+  /\ UNCHANGED <<st, q, done, claims, gh>>
+
+SibClaim(w) ==
+  \* one transaction: INSERT OR IGNORE of the claim row (mutex: steal only from a terminal owner) and the
+  \* NOT_STARTED -> RUNNING compare-and-swap of the stage; a blocked claim rolls everything back
+  /\ wk[w].pc = "sibclaim"
+  /\ LET s == Branch[w]
+         free == \/ ClaimKey \notin DOMAIN claims \/ claims[ClaimKey] = s
+                 \/ (Scenario = "M" /\ st[claims[ClaimKey]].status \in Complete)
+     IN IF free /\ st[s].ver = wk[w].snap.ver /\ st[s].status = "NOT_STARTED"
+        THEN /\ st' = [st EXCEPT ![s].status = "RUNNING", ![s].ver = @ + 1, ![s].tver = @ + 1]
+             /\ claims' = [k \in DOMAIN claims \cup {ClaimKey} |-> IF k = ClaimKey THEN s ELSE claims[k]]
+             /\ gh' = [gh EXCEPT !.nclaims = @ + 1, !.claimed = @ \cup {s}]
+             /\ LET \* winner of a choice re-reads the workflow: still NOT_STARTED siblings get a CancelStage
+                     sibs == IF Scenario = "X"
+                             THEN SelectSeq(SibOrder, LAMBDA o : o # s /\ st[o].status = "NOT_STARTED") ELSE <<>>
+                IN wk' = [wk EXCEPT ![w].pc = IF sibs # <<>> THEN "sibcancel" ELSE "plan", ![w].sib = sibs]
+        ELSE /\ UNCHANGED <<st, claims, gh>>
+             /\ Go(w, IF ~free THEN (IF Scenario = "M" THEN "requeue" ELSE "cancelself") ELSE "postmark")
+  /\ UNCHANGED <<q, done>>
+
+SibCancel(w) ==   \* own commit per sibling
+  /\ wk[w].pc = "sibcancel"
+  /\ wk[w].sib # <<>>
+  /\ q' = q \cup {NewMsg("CancelStage", Head(wk[w].sib))}
+  /\ wk' = [wk EXCEPT ![w].sib = Tail(@), ![w].pc = IF Len(wk[w].sib) = 1 THEN "plan" ELSE "sibcancel"]
+  /\ UNCHANGED <<st, done, claims, gh>>
+CancelSelf(w) ==    \* lost the choice: processed mark + CancelStage(self) in one commit
+  /\ wk[w].pc = "cancelself"
+  /\ done' = done \cup {MsgOf(w)}
+  /\ q' = q \cup {NewMsg("CancelStage", Branch[w])}
   /\ Go(w, "postmark")
+  /\ UNCHANGED <<st, claims, gh>>
 
 (* ---- processor tail --------------------------------------------------------------------------- *)
-PostMark(w) == /\ wk[w].pc = "postmark" /\ done' = done \cup {MsgOf(w)} /\ Go(w, "ack") /\ UNCHANGED <<st, q, gh>>
-Ack(w)      == /\ wk[w].pc = "ack" /\ q' = q \ {MsgOf(w)} /\ Go(w, "end") /\ UNCHANGED <<st, done, gh>>
+PostMark(w) == /\ wk[w].pc = "postmark" /\ done' = done \cup {MsgOf(w)} /\ Go(w, "ack") /\ UNCHANGED <<st, q, claims, gh>>
+Ack(w)      == /\ wk[w].pc = "ack" /\ q' = q \ {MsgOf(w)} /\ Go(w, "end") /\ UNCHANGED <<st, done, claims, gh>>
 
 Step(w) == SSRead(w) \/ SSClaim(w) \/ SSPlan(w) \/ SSRequeue(w) \/ CSRead(w) \/ CSJoinTrack(w) \/ CSFinal(w)
+           \/ SibRead(w) \/ SibClaim(w) \/ SibCancel(w) \/ CancelSelf(w)
            \/ PostMark(w) \/ Ack(w)
 Next == \E w \in Workers : Step(w)
 Spec == Init /\ [][Next]_vars
@@ -132,13 +190,21 @@ AllDone == \A w \in Workers : wk[w].pc = "end"
 (* C04: exactly one of the racing workers starts the stage: claimed once, planned once, first task
    triggered once; every upstream completion is recorded on the join stage (no lost update) and
    triggers the join stage exactly once per branch. *)
-ClaimOnce       == gh.claims <= 1
+ClaimOnce       == gh.nclaims <= 1
 PlanOnce        == gh.plans <= 1 /\ gh.startTask <= 1
-StartedExactlyOnce == (AllDone /\ Scenario = "A") => (gh.claims = 1 /\ gh.plans = 1 /\ gh.startTask = 1
+StartedExactlyOnce == (AllDone /\ Scenario = "A") => (gh.nclaims = 1 /\ gh.plans = 1 /\ gh.startTask = 1
                                                       /\ st["d"].status = "RUNNING")
 BranchesRecorded == (AllDone /\ Scenario = "B") =>
                        /\ (Tracked => st["d"].cb = {Branch[w] : w \in Workers})
                        /\ gh.startStageD = Cardinality(Workers)
                        /\ \A w \in Workers : st[Branch[w]].status = "SUCCEEDED"
+(* C11: two stages sharing a mutex key are never RUNNING together; of a deferred-choice group exactly one
+   stage is ever claimed and every other one gets its CancelStage *)
+MutexExclusive == Scenario = "M" => Cardinality({s \in DOMAIN st : st[s].status = "RUNNING"}) <= 1
+ChoiceOneWinner == Scenario = "X" => Cardinality(gh.claimed) <= 1
+SiblingsSettled == (AllDone /\ Scenario \in {"M", "X"}) =>
+   /\ Cardinality(gh.claimed) = 1
+   /\ \A w \in Workers : Branch[w] \notin gh.claimed =>
+         \E m \in q : m[3] >= 100 /\ m[2] = Branch[w] /\ m[1] = (IF Scenario = "M" THEN "StartStage" ELSE "CancelStage")
 NothingLeftLocked == AllDone => \A w \in Workers : MsgOf(w) \notin q /\ MsgOf(w) \in done
 =============================================================================
